@@ -2,6 +2,7 @@ package handshake
 
 import (
 	"encoding/json"
+	"fmt"
 	"testing"
 
 	"verif/harness/lib"
@@ -60,6 +61,6 @@ func TestVersions(t *testing.T) {
 		if err := json.Unmarshal(raw, &c); err != nil {
 			t.Fatalf("case %d: %v", i+1, err)
 		}
-		tw.Emit(map[string]any{"i": i + 1, "in": raw, "out": EvalVersionCase(c)})
+		tw.Emit(map[string]any{"tr": fmt.Sprintf("VT:%d", i+1), "i": i + 1, "in": raw, "out": EvalVersionCase(c)})
 	}
 }
